@@ -5,6 +5,7 @@ import A2Verif.Lemmas.FsProdosPut
 import A2Verif.Lemmas.FsProdosOps
 import A2Verif.Lemmas.FsProdosLockPath
 import A2Verif.Lemmas.FsProdosRetype
+import A2Verif.Lemmas.FsProdosSt
 import A2Verif.Model.Read.ProdosT
 import A2Verif.Model.VolSpec
 /-!
@@ -85,11 +86,18 @@ def okOf {α : Type} (x : R α × Disk) : Bool × Disk :=
   | (.ok _, d) => (true, d)
   | (.error _, d) => (false, d)
 
-/-- one concrete operation followed by the write-back `get_img()` performs -/
-def COp.run (time : Bytes) (op : COp) (d : Disk) : Bool × Disk :=
+/-- the source with the four repairs the model carries (`Repairs`): the tree after `prodos-delete-grown-directory`,
+`prodos-put-size-limits`, `prodos-bitmap-block-count` and `prodos-put-first-chunk-hole` -/
+def repaired : Repairs := { dirDelete := true, putLimits := true, bitmapCeil := true, firstHole := true }
+
+/-- the source before the last two repairs (a2kit at aadfbdc) -/
+def asWritten : Repairs := { dirDelete := true, putLimits := true }
+
+/-- one concrete operation followed by the write-back `get_img()` performs; `rp` = the variant of the source -/
+def COp.run (rp : Repairs) (time : Bytes) (op : COp) (d : Disk) : Bool × Disk :=
   let (ok, d') := match op with
-    | .put p ft aux acc eof cs => okOf (Fs.Prodos.put { fullPath := p, fsType := [ft], aux := u16le aux, access := [acc], eof := eof, chunks := cs } time {} d)
-    | .delete p => okOf (Fs.Prodos.delete p {} d)
+    | .put p ft aux acc eof cs => okOf (Fs.Prodos.put { fullPath := p, fsType := [ft], aux := u16le aux, access := [acc], eof := eof, chunks := cs } time rp d)
+    | .delete p => okOf (Fs.Prodos.delete p rp d)
     | .rename p n => okOf (Fs.Prodos.rename p n d)
     | .lock p => okOf (Fs.Prodos.lock p d)
     | .unlock p => okOf (Fs.Prodos.unlock p d)
@@ -99,25 +107,25 @@ def COp.run (time : Bytes) (op : COp) (d : Disk) : Bool × Disk :=
 
 /-- one step of a history is a transition the abstract specification allows, ends in an `InvB` image, and has the
 expected result -/
-def stepRefines (time : Bytes) (cp cq : Bytes) (op : COp) (expectOk : Bool) (d : Disk) : Bool × Disk :=
-  let (ok, d') := op.run time d
+def stepRefines (rp : Repairs) (time : Bytes) (cp cq : Bytes) (op : COp) (expectOk : Bool) (d : Disk) : Bool × Disk :=
+  let (ok, d') := op.run rp time d
   (stepOk prodosParams (volOf d.raw) (op.abs cp cq) ok (volOf d'.raw) && InvB d'.raw && ok == expectOk, d')
 
-def historyRefines (time : Bytes) : List (Bytes × Bytes × COp × Bool) → Disk → Bool
+def historyRefines (rp : Repairs) (time : Bytes) : List (Bytes × Bytes × COp × Bool) → Disk → Bool
   | [], _ => true
   | (cp, cq, op, expectOk) :: rest, d =>
-    let (good, d') := stepRefines time cp cq op expectOk d
-    good && historyRefines time rest d'
+    let (good, d') := stepRefines rp time cp cq op expectOk d
+    good && historyRefines rp time rest d'
 
 /-! ## a small volume in the kernel -/
 
-def blank (n : Nat) : Disk :=
-  { raw := { unitLen := 512, units := Array.replicate n (List.replicate 512 0) }, total := n, bitmap := none, bitmapBlocks := [] }
+def blank (n : Nat) (rp : Repairs) : Disk :=
+  { raw := { unitLen := 512, units := Array.replicate n (List.replicate 512 0) }, total := n, bitmap := none, bitmapBlocks := [], src := rp }
 
 def exTime : Bytes := [33, 0, 0, 0]
 
 /-- `format("VERIF", …)` of a blank image of `n` blocks, written back -/
-def formatted (n : Nat) : Disk := ((format [86, 69, 82, 73, 70] (zeros 512) exTime (blank n)).2.flush).2
+def formatted (n : Nat) (rp : Repairs := repaired) : Disk := ((format [86, 69, 82, 73, 70] (zeros 512) exTime (blank n rp)).2.flush).2
 
 def chunkOf (v n : Nat) : Bytes := List.replicate n v
 
@@ -207,8 +215,8 @@ count an independent reading of the saved image gives) -/
 theorem prodos_stat_free_is_reading (d : Disk) (kb : Bytes)
     (hclosed : d.bitmap = none) (hnb : d.bitmapBlocks.contains volKeyBlock = false)
     (hkb : d.raw.units[2]? = some kb)
-    (hcnt : (d.total + 4095) / 4096 = bitmapBlockCount d.total)
-    (hblk : ∀ k, k < bitmapBlockCount d.total →
+    (hcnt : (d.total + 4095) / 4096 = d.bmCount)
+    (hblk : ∀ k, k < d.bmCount →
       le16 kb 39 + k < d.raw.units.size ∧ (unitAt d.raw (le16 kb 39 + k)).length = 512 ∧ ∀ x ∈ unitAt d.raw (le16 kb 39 + k), x < 256) :
     ∃ fr, Read.Prodos.bitmapFree d.raw (le16 kb 39) d.total = .ok fr ∧ (statFree d).1 = .ok fr.length :=
   statFree_eq_reader_free d kb hclosed hnb hkb hcnt hblk
@@ -390,5 +398,39 @@ theorem prodos_retype_refines (d d' : Disk) (buf : Array Nat) (path vn nm kb : B
     (hrun : retype path (some t) (some a) d = (.ok (), d')) :
     ∃ v', Read.ProdosT.read d'.raw = .ok v' ∧ v'.wfB = true ∧ stepOk prodosParams v (.retype (upper nm)) true v' = true :=
   retype_path_refines d d' buf path vn nm kb t a v hkb h2nb hnodes hopen hread hwf hgeo hch hrun
+
+/-! ## the number of bitmap blocks (finding `prodos-bitmap-block-count`) -/
+
+/-- **source as repaired**: the number of bitmap blocks a2kit loads, writes back and reserves is the number the volume
+format has (what the independent reader computes), for every block count -/
+theorem prodos_bitmap_count_repaired (d : Disk) (h : d.src.bitmapCeil = true) : d.bmCount = (d.total + 4095) / 4096 := by
+  unfold Disk.bmCount; rw [if_pos h]
+
+example : (blank 4096 repaired).bmCount = 1 ∧ (blank 8192 repaired).bmCount = 2 ∧ (blank 65535 repaired).bmCount = 16 := by decide
+
+/-- **negative witness, source as written**: on a volume of `4096·k` blocks a2kit counts `k + 1` bitmap blocks where the
+format has `k`; once the buffer is open, the block right after the bitmap — an ordinary block of the volume, free on a
+volume laid out by ProDOS — is refused by `write_block` with a panic ("attempt to write bitmap block").  Replayed on the
+real code at aadfbdc (directed scenario `prodos-bitmap-block-count`: put of a 100-byte file on such a volume panics). -/
+theorem prodos_bitmap_count_as_written_panics (d : Disk) (bm cnt k : Nat) (data : Bytes) (h : St d bm cnt)
+    (hsrc : d.src.bitmapCeil = false) (hk : 0 < k) (ht : d.total = 4096 * k) :
+    (d.total + 4095) / 4096 = k ∧ cnt = k + 1 ∧
+      writeBlock data (bm + k) 0 (openD d bm cnt) = (.error .panic, openD d bm cnt) := by
+  have hc : cnt = k + 1 := by
+    rw [← h.hcnt]; unfold Disk.bmCount bitmapBlockCount; rw [hsrc, ht]; simp; omega
+  refine ⟨by rw [ht]; omega, hc, ?_⟩
+  have hmem : (openD d bm cnt).bitmapBlocks.contains (bm + k) = true := by
+    show (bmRange bm cnt).contains (bm + k) = true
+    simp only [List.contains_eq_mem, decide_eq_true_eq]
+    rw [mem_bmRange]; omega
+  unfold writeBlock
+  simp only [bind_def, M.bind, M.get, hmem, ↓reduceIte, M.fail]
+
+/-- the hypotheses of `prodos_bitmap_count_as_written_panics` are satisfiable: a 4096-block disk object (of which only
+the first 8 units are spelled out) whose header names block 6 as the first bitmap block -/
+example : ∃ d : Disk, St d 6 2 ∧ d.src.bitmapCeil = false ∧ d.total = 4096 * 1 :=
+  ⟨{ raw := { unitLen := 512, units := #[[], [], List.replicate 39 0 ++ [6, 0], [], [], [], [], []] }, total := 4096,
+     bitmap := none, bitmapBlocks := [], src := asWritten },
+   ⟨⟨_, rfl, by decide⟩, by decide, by decide, by intro i hi; rw [mem_bmRange] at hi; show i < 8; omega, Or.inl ⟨rfl, Or.inl rfl⟩⟩, rfl, rfl⟩
 
 end A2Verif.FsProdos
